@@ -34,13 +34,27 @@ LEVEL = "exploration"
 # --------------------------------------------------------------------------------------------------------------------
 # tolerances (measured on the tree with the two C11 defects repaired in a scratch copy, see the final report / evidence)
 QUAD_TOL = 2.0 ** -26  # the library's fixed quadrature tolerance for its eta function (oqupy.config.INTEGRATE_EPSREL)
-TOL_A = 2e-7           # commuting family: limited by the library's quadrature of eta(beta) only (truncation is exact)
-TOL_B = 1e-12          # zero coupling: no quadrature, no truncation
+TOL_A = 2e-7           # commuting family: quadrature floor (the library's eta(beta)); + C_EPS * epsrel, because the
+#                        truncation removes components (populations) of relative weight < epsrel
+TOL_B = 1e-12          # zero coupling: no quadrature; + C_B * epsrel (truncation of the free-propagator network)
+C_B = 1.0
 C_W = 10.0             # weak coupling: |rho - rho_can| <= C_W * lambda o_max^2 / T + C_EPS * epsrel
-C_EPS = 30.0           # truncation-limited state comparisons: C_EPS * epsrel
-C_PHYS = 100.0         # Hermiticity / positivity / reality: C_PHYS * epsrel
+C_EPS = 100.0          # truncation-limited state comparisons: C_EPS * epsrel (measured <= 1.8 * epsrel; the truncation
+#                        may remove up to d-1 populations of relative weight < epsrel)
+C_PHYS = 300.0         # Hermiticity (measured <= 6.5 * epsrel) / positivity / reality: C_PHYS * epsrel
+MODEL_TOL = 1e-6       # naming only: the guard-defect model reproduces the unrepaired tree to <= 2.3e-7 (measured)
 TOL_ID = 1e-13         # repeated compute() must not change anything
 TOL_TRACE = 1e-12
+
+
+def tol_a(eps):
+    return TOL_A + C_EPS * eps
+
+
+def tol_b(eps):
+    return TOL_B + C_B * eps
+
+
 INFL_MIN = 0.05        # a case is non-trivial if the bath moves the exact state by more than this
 EPS_MACH = np.finfo(float).eps
 
@@ -232,14 +246,17 @@ def _exc(ex):
 
 
 def classify(got, candidates, tol):
-    """candidates: ordered list of (signature, matrix, tolerance or None); first entry is the oracle (signature None)."""
+    """candidates: ordered list of (signature, matrix, tolerance or None); first entry is the oracle (signature None).
+    The verdict only depends on the oracle; the other candidates merely NAME a failure (a named failure must be
+    explained by the candidate: distance to it within its tolerance and at most a fifth of the distance to the oracle)."""
     dev = float(np.abs(got - candidates[0][1]).max())
-    if dev <= tol:
-        return None, dev
-    for sig, mat, t in candidates[1:]:
-        if float(np.abs(got - mat).max()) <= (tol if t is None else t):
-            return sig, dev
-    return "state-mismatch", dev
+    if not dev <= tol:
+        for sig, mat, t in candidates[1:]:
+            md = float(np.abs(got - mat).max())
+            if md <= (tol if t is None else max(t, tol)) and md <= 0.2 * dev:
+                return sig, dev
+        return "state-mismatch", dev
+    return None, dev
 
 
 # --------------------------------------------------------------------------------------------------------------------
@@ -252,7 +269,7 @@ def tiers(tier):
                 ([] if q else ["ohmic-exp-wc10", "superohmic-exp"]),
         "A_T": [0.3, 1.0, 3.0] if q else [0.3, 0.5, 1.0, 3.0],
         "A_alpha": [0.1, 0.4] if q else [0.05, 0.1, 0.4],
-        "n": [2, 3, 5, 8] if q else [2, 3, 4, 5, 8, 12, 16],
+        "n": [2, 3, 5, 8] if q else [2, 3, 4, 5, 8, 12],
         "eps": [1e-6, 1e-9] if q else [1e-4, 1e-6, 1e-9],
         "F_sd": ["ohmic-exp", "superohmic-gauss"] if q else ["ohmic-exp", "superohmic-gauss", "custom-drude-hard"],
         "F_T": [0.3, 1.0, 3.0],
@@ -278,7 +295,7 @@ def case_a(o, hk, sd, temp, alpha, n, eps):
     bare = canonical(h, temp)
     infl = float(np.abs(exact - bare).max())
     asym = float(np.abs(exact - exact.T).max())
-    r = {"infl": infl, "asym": asym, "dev": None, "sig": None, "what": "", "phys": None}
+    r = {"infl": infl, "asym": asym, "dev": None, "ratio": None, "sig": None, "what": "", "phys": None}
     try:
         got = lib_state(h, o, sd, alpha, temp, n, eps)
     except Exception as ex:  # noqa
@@ -290,15 +307,15 @@ def case_a(o, hk, sd, temp, alpha, n, eps):
         cands.append(("returns-transpose", exact.T, None))
     if miss * max(o2.diagonal()) > TOL_A:
         defect = canonical(h, temp, (lam - temp * miss) * o2)
-        cands.append(("matsubara-guard-term-dropped", defect, 3e-6))   # the model itself is good to ~1e-9*exponent
+        cands.append(("matsubara-guard-term-dropped", defect, MODEL_TOL))
         if asym > 100 * TOL_A:
-            cands.append(("returns-transpose+matsubara-guard-term-dropped", defect.T, 3e-6))
-    sig, dev = classify(got, cands, TOL_A)
+            cands.append(("returns-transpose+matsubara-guard-term-dropped", defect.T, MODEL_TOL))
+    sig, dev = classify(got, cands, tol_a(eps))
     psig, nums = physical(got, eps)
-    r.update(dev=dev, sig=sig or psig, phys=nums, state=got)
+    r.update(dev=dev, sig=sig or psig, phys=nums, state=got, ratio=dev / tol_a(eps))
     if sig:
         r["what"] = (f"O=diag{tuple(o)} H={hk} {sd} alpha={alpha} T={temp} n_steps={n} epsrel={eps}: "
-                     f"|rho - exp(-(H - lambda O^2)/T)/Z| = {dev:.2e} > {TOL_A:.0e} (lambda={lam:.4f}, "
+                     f"|rho - exp(-(H - lambda O^2)/T)/Z| = {dev:.2e} > {tol_a(eps):.1e} (lambda={lam:.4f}, "
                      f"populations {np.round(np.diag(got).real, 6).tolist()} vs {np.round(np.diag(exact).real, 6).tolist()})")
     elif psig:
         r["what"] = f"O=diag{tuple(o)} H={hk} {sd} alpha={alpha} T={temp} n_steps={n} epsrel={eps}: {psig} {nums}"
@@ -349,7 +366,7 @@ def case_zero(hk, o, sd, temp, n, eps, variant):
     h = free_h(hk)
     can = canonical(h, temp)
     asym = float(np.abs(can - can.T).max())
-    r = {"asym": asym, "dev": None, "sig": None, "what": "", "phys": None}
+    r = {"asym": asym, "dev": None, "ratio": None, "sig": None, "what": "", "phys": None}
     try:
         if variant == "alpha0":
             got = lib_state(h, o, sd, 0.0, temp, n, eps)
@@ -361,12 +378,12 @@ def case_zero(hk, o, sd, temp, n, eps, variant):
     cands = [(None, can, None)]
     if asym > 1e-6:
         cands.append(("returns-transpose", can.T, None))
-    sig, dev = classify(got, cands, TOL_B)
+    sig, dev = classify(got, cands, tol_b(eps))
     psig, nums = physical(got, eps)
-    r.update(dev=dev, sig=sig or psig, phys=nums)
+    r.update(dev=dev, sig=sig or psig, phys=nums, ratio=dev / tol_b(eps))
     if sig:
         r["what"] = (f"H={hk} O=diag{tuple(o)} {variant} {sd} T={temp} n_steps={n} epsrel={eps}: |rho - expm(-H/T)/Z| = "
-                     f"{dev:.2e} > {TOL_B:.0e}; |rho - (expm(-H/T)/Z)^T| = {np.abs(got - can.T).max():.1e}")
+                     f"{dev:.2e} > {tol_b(eps):.1e}; |rho - (expm(-H/T)/Z)^T| = {np.abs(got - can.T).max():.1e}")
     elif psig:
         r["what"] = f"H={hk} O=diag{tuple(o)} {variant}: {psig} {nums}"
     return r
@@ -396,7 +413,7 @@ def case_weak(hk, o, sd, temp, n, eps, alphas):
         psig, nums = physical(got, eps)
         r["phys"].append(nums)
         if dev > tol and r["sig"] is None:
-            r["sig"] = "tends-to-transpose" if (asym > 30 * tol and devt <= tol) else "not-within-C*coupling"
+            r["sig"] = "tends-to-transpose" if (devt <= tol and devt <= 0.2 * dev) else "not-within-C*coupling"
             r["bad_alpha"] = al
             r["what"] = (f"H={hk} O=diag{tuple(o)} {sd} T={temp} n_steps={n} epsrel={eps} alpha={al}: |rho - expm(-H/T)/Z| = "
                          f"{dev:.2e} > {tol:.1e} = {C_W}*lambda*o_max^2/T + {C_EPS}*epsrel; distance to the transpose "
@@ -467,7 +484,10 @@ def case_finite(hk, o, sd, temp, n, eps, alpha, with_path):
         return r
     psig, nums = physical(got, eps)
     r["phys"] = nums
-    r["infl"] = float(np.abs(got - canonical(h, temp)).max())
+    can = canonical(h, temp)
+    # measured bath influence; the smaller of the distances to rho_can and to its transpose, so that the count of
+    # non-trivial cases does not depend on whether the tree under test returns transposed states
+    r["infl"] = float(min(np.abs(got - can).max(), np.abs(got - can.T).max()))
     if hk.endswith("real") and float(np.abs(got.imag).max()) > C_PHYS * eps and psig is None:
         psig = "complex-for-real-H"
     if psig:
@@ -511,6 +531,9 @@ def groups_e(tier):
     items = [("A", list(o), hk) for (o, hk) in comm_pairs()] + [("F", list(o), hk) for (hk, o) in t["F_pairs"]]
     return [{"fam": "E", "src": src, "o": o, "hk": hk, "sd": "ohmic-exp", "alpha": 0.2, "T": temp, "n": n, "eps": 1e-9}
             for (src, o, hk), temp, n in itertools.product(items, t["E_T"], t["E_n"])]
+
+
+E_RUNS = 10  # library computations per history case: reference, 3 on one object, 2 + 3 on fresh objects, shortcut
 
 
 def case_e(g):
@@ -571,7 +594,7 @@ def work_e(g):
 
 
 def cls_e(g, sig):
-    return f"history|{'commuting' if g['src'] == 'A' else 'free'}|H={g['hk']}|n={g['n']}|{sig}"
+    return f"history|{'commuting' if g['src'] == 'A' else 'free'}|H={g['hk']}|{sig}"
 
 
 # --------------------------------------------------------------------------------------------------------------------
@@ -607,6 +630,9 @@ def run(tier, seed):
                 _upd(st, "A_max_dev_violating", r["dev"], max)
                 continue
             _upd(st, "A_max_dev", r["dev"], max)
+            _upd(st, "A_max_dev_over_tol", r["ratio"], max)
+            if r["rp"]["eps"] <= 1e-9:
+                _upd(st, "A_max_dev_at_epsrel<=1e-9", r["dev"], max)
             _upd(st, "max_herm_dev_over_epsrel", r["phys"]["herm"] / r["rp"]["eps"], max)
             _upd(st, "min_eigenvalue_over_epsrel", r["phys"]["mineig"] / r["rp"]["eps"], min)
             if g["hk"] == "block-complex":
@@ -623,10 +649,12 @@ def run(tier, seed):
                 _upd(st, "B_max_dev_violating", r["dev"], max)
                 continue
             _upd(st, "B_max_dev", r["dev"], max)
+            _upd(st, "B_max_dev_over_tol", r["ratio"], max)
+            _upd(st, "B_max_dev_over_epsrel", r["dev"] / g["eps"], max)
             if "complex" in g["hk"]:
                 _upd(st, "B_min_transpose_visibility_complex_H", r["asym"], min)
         r = res["weak"]
-        ev["C"] += len(r["devs"]) + (1 if r["sig"] and r["sig"].startswith("exception") else 0)
+        ev["C"] += len(g["walpha"])
         monitored += len(r["phys"])
         _upd(st, "C_min_commutator_H_O", r["comm"], min)
         if r["comm"] > 0.1:
@@ -653,7 +681,7 @@ def run(tier, seed):
                 _upd(st, "D_info_max_dev_from_transposed_path_sum", r["pdev_t"], max)
     # ---- E
     for g, r in zip(ge, re_):
-        ev["E"] += r["computes"]
+        ev["E"] += E_RUNS
         if r["infl"] is not None and r["infl"] > INFL_MIN:
             nontriv["E"].add((g["src"], tuple(g["o"]), g["hk"], g["T"], g["n"]))
         if r["sig"]:
@@ -674,7 +702,7 @@ def run(tier, seed):
                 "iff the exact state differs from exp(-H/T)/Z by > 0.05 (the +-1 operator is trivial by construction), keyed by "
                 "the full tuple; B/C/D: full product (H kind, O) x spectral density x T x n_steps x epsrel, each with both "
                 "zero-coupling variants (B, all count), one weak-coupling chain over alpha (C, non-trivial iff |[H,O]| > 0.1), "
-                "every finite alpha (D, non-trivial iff the state moved by > 0.05); E: every (H, O) of A and of B x T x n_steps, "
+                "every finite alpha (D, non-trivial iff the returned state is further than 0.05 from exp(-H/T)/Z and from its transpose); E: every (H, O) of A and of B x T x n_steps, "
                 "histories compute^k.get_state k=1..3 on one object and on fresh objects + shortcut, non-trivial iff the bath "
                 "moved the state by > 0.05",
         "alphabet": {"A": {"O,H": [[list(o), hk] for o, hk in comm_pairs()], "sd": t["A_sd"], "T": t["A_T"],
@@ -686,10 +714,11 @@ def run(tier, seed):
         "samples": [ga[(7 * seed + 3) % len(ga)], {k: v for k, v in gf[(11 * seed + 5) % len(gf)].items()},
                     ge[(3 * seed + 1) % len(ge)]],
         "exhaustive": True,
-        "max_dev": amax, "tolerance": TOL_A, "max_dev_over_tol": amax / TOL_A,
-        "tolerances": {"A": TOL_A, "B": TOL_B, "C": f"{C_W}*lambda*o_max^2/T + {C_EPS}*epsrel", "E": TOL_ID,
+        "max_dev": amax, "tolerance": f"{TOL_A} + {C_EPS}*epsrel", "max_dev_over_tol": st.get("A_max_dev_over_tol") or 0.0,
+        "tolerances": {"A": f"{TOL_A} + {C_EPS}*epsrel", "B": f"{TOL_B} + {C_B}*epsrel", "C": f"{C_W}*lambda*o_max^2/T + {C_EPS}*epsrel", "E": TOL_ID,
                        "hermiticity/positivity/reality": f"{C_PHYS}*epsrel", "trace": TOL_TRACE},
-        "B_max_dev_over_tol": (st.get("B_max_dev") or 0.0) / TOL_B,
+        "B_max_dev_over_tol": st.get("B_max_dev_over_tol") or 0.0,
+        "C_max_dev_over_tol": st.get("C_max_dev_over_tol") or 0.0,
         "E_max_dev_over_tol": (st.get("E_max_dev") or 0.0) / TOL_ID,
         "stats": st,
         "min_effect_nontrivial": INFL_MIN,
@@ -697,8 +726,11 @@ def run(tier, seed):
     rep.assumptions = [
         "oracle A: rho = exp(-(H - lambda O^2)/T)/Z for [H,O]=0 (displaced-oscillator identity), lambda = int J/w by own "
         "quadrature of own J formulas, cross-checked against closed forms to 1e-9 relative at run time",
-        "tolerance A (2e-7) is set by the library's fixed quadrature tolerance 2^-26 for its eta function times the size of "
-        "the exponent (<= 22 in the alphabet); the tensor-network truncation is exact for commuting models",
+        "tolerance A = 2e-7 + 100*epsrel: the floor is the library's fixed quadrature tolerance 2^-26 for its eta function "
+        "times the largest exponent lambda*o^2/T of the alphabet (32) times 0.4 (measured 2.8e-10 at epsrel 1e-9 on a tree "
+        "with the guard term restored); the epsrel part because the singular-value truncation removes populations of "
+        "relative weight < epsrel (measured <= 1.8*epsrel)",
+        "tolerance B = 1e-12 + 1.0*epsrel (measured 8e-15 at epsrel <= 1e-6 and 0.0075*epsrel at epsrel = 1e-4)",
         "weak coupling: only the bound C*lambda*o_max^2/T and monotonic decrease are checked (what the property states), "
         "not the first-order coefficient",
         "the discretised path-sum comparison in family D is informational (a different but valid discretisation would "
